@@ -107,7 +107,49 @@ def contoursOps (tol : Q) : List Contour → Except Err (List Op)
     | .error e, _ => .error e
     | _, .error e => .error e
 
-/-- the pre-processed glyph set: `_GlyphSet.from_layer(..., skipExportGlyphs)` then `DecomposeComponentsFilter()` -/
+/-- `BaseCompiler.preprocess`: `if self.skipExportGlyphs is None:` the UFO's `public.skipExportGlyphs` lib key is consulted,
+    otherwise the argument is used as given (also an EMPTY one) -/
+def effectiveSkip (arg : Option (List String)) (lib : List String) : List String :=
+  match arg with
+  | none => lib
+  | some a => a
+
+/-- the `include=[...]` / `exclude=[...]` restriction of a custom filter (`BaseFilter.include`, `_check_include_exclude`) -/
+inductive Sel
+  | incl (l : List String)
+  | excl (l : List String)
+  deriving Repr
+
+def Sel.pred : Sel → String → Bool
+  | .incl l, n => l.contains n
+  | .excl l, n => !l.contains n
+
+/-- the pre-processed glyph set: `_GlyphSet.from_layer(..., skipExportGlyphs)`, then the custom PRE-filters of the UFO lib /
+    `filters=` argument (`BasePreProcessor.process`: `for func in self.preFilters`) - here an explicit, possibly restricted
+    `DecomposeComponentsFilter(pre=True, include=…|exclude=…)` -, then the default filter `DecomposeComponentsFilter()`,
+    which `OTFPreProcessor.initDefaultFilters` ALWAYS puts first, whatever the custom filters are -/
+def preprocessF (pf : Option Sel) (skip : List String) (gs : GlyphSet) : Except Err GlyphSet :=
+  let gs1 : Except GErr GlyphSet :=
+    if skip.isEmpty then .ok gs
+    else match skipExport skip (fun _ => true) gs with
+      | .error e => .error e
+      | .ok st => .ok st.gs
+  match gs1 with
+  | .error e => .error (.geom e)
+  | .ok gs1 =>
+    let gs2 : Except GErr GlyphSet :=
+      match pf with
+      | none => .ok gs1
+      | some s => match runFilter decomposeStep s.pred gs1 with
+        | .error e => .error e
+        | .ok st => .ok st.gs
+    match gs2 with
+    | .error e => .error (.geom e)
+    | .ok gs2 => match runFilter decomposeStep (fun _ => true) gs2 with
+      | .error e => .error (.geom e)
+      | .ok st => .ok st.gs
+
+/-- the pre-processed glyph set without custom filters: `_GlyphSet.from_layer(..., skipExportGlyphs)` then `DecomposeComponentsFilter()` -/
 def preprocess (skip : List String) (gs : GlyphSet) : Except Err GlyphSet :=
   let gs1 : Except GErr GlyphSet :=
     if skip.isEmpty then .ok gs
